@@ -499,6 +499,10 @@ def run_shard(sh):
       if rng.random() < 0.5:
         # a local name that begins with a python keyword of the block header ( def... ) at the start of a body line
         blk_["emit_stmts"] = [["raw", rng.choice(["default_v = 1", "defer = 0", "define_x = 2", "deflt = 3"])]] + stmts
+        if rng.random() < 0.5:
+          # a helper function defined INSIDE the block (plain python; its def line is indented deeper than the block's own)
+          blk_["emit_stmts"] = [["raw", "def local_helper(v):"], ["raw", "  return v + 1"], ["raw", "@staticmethod" if False else "unused_ = local_helper(1)"]] + blk_["emit_stmts"]
+          sh.count("legal_blocks_with_nested_def")
       cls["blocks"].append(blk_)
       if rng.random() < 0.6:
         # a net reads some slice of it (inside, outside or across the slice written separately)
